@@ -239,7 +239,7 @@ def run(ctx):
     cases, mism = harness(n, ctx.seed, "h", True)
     st = state["stats"]
     if cases and not ctx.corr_broken and not ctx.violations:
-        for k in ("input_with_localpref_conflict", "unnumbered", "unnumbered_differing_only_in_interface", "disable_mp", "neighbor_without_advertisement", "repeated_prefix",
+        for k in ("input_with_localpref_conflict", "unnumbered", "unnumbered_differing_only_in_interface", "shared_advertisement_then_extra_community_on_one_neighbor", "disable_mp", "neighbor_without_advertisement", "repeated_prefix",
                   "adv_with_localpref", "large_community", "community", "neighbor_with_v4_and_v6", "multi_vrf", "multi_neighbor",
                   "histories", "hist_set_ops", "hist_final_repeated_prefix", "histories_through_debouncer_and_file",
                   "hist_rejected_set", "hist_resync"):
